@@ -28,11 +28,7 @@ THEOREMS = [
     "PV.C19.number_eq",
     "PV.C19.string_eq",
     "PV.C19.char_eq",
-    "PV.C19.bytes_eq_partial",
-    "PV.C19.format_bytes_underflow",
-    "PV.C19.format_bytes_dot_ignored",
-    "PV.C19.bytes_eq_fails",
-    "PV.C19.format_bytes_panics_iff",
+    "PV.C19.bytes_eq",
     "PV.C19.float_layout_eq",
     "PV.C19.float_eq_partial",
     "PV.C19.float_precision_panics",
@@ -56,8 +52,6 @@ PARTIAL = [
     "reject the template for a 'b' conversion",
     "InDomain excludes templates of 2^31-1 or more characters and digit runs above 2^31-1 (the code reports "
     "IntTooBig for widths Python accepts up to 2^63-1: witness width_over_i32_rejected)",
-    "bytes_eq_partial: format_bytes panics when the width is smaller than the data (format_bytes_underflow) and "
-    "ignores a lone '.' precision (format_bytes_dot_ignored)",
     "floats: float_eq_partial proves format_float = the C-printf reference over the exact digits of PV.Dec for "
     "precision <= 65530, with the hypothesis (for %g only) that the digit generator returns the P significant "
     "digits asked for; that PV.Dec's digits are Rust's {:.N}/{:.Ne} digits and CPython's is sampled by "
@@ -72,8 +66,8 @@ LEVEL_TEXT = ("Machine-checked Lean 4 theorems, for templates and arguments of e
               "reference definition of Python's % splitting (bytes templates: whole domain; text templates: all but "
               "the 'b' conversion the code wrongly accepts); integer, string, character and bytes formatting equal "
               "the reference layout (zero padding after sign and prefix, '-' over '0', precision as minimum digits / "
-              "truncation) with the bytes panic and the ignored '.' precision carved out and witnessed; no modelled "
-              "path panics inside the stated domain. The model is tied to the Rust code, and the reference to "
+              "truncation) for every spec and argument (bytes formatting since fix 86620af); floats equal the "
+              "C-printf reference for precision <= 65530; no modelled path panics inside the stated domain. The model is tied to the Rust code, and the reference to "
               "CPython, by exhaustive short templates and random longer ones on every run.")
 LEVEL_NOTE = ("Trusted: Lean kernel, model fidelity as sampled by correspondence (all templates of <= 4/5 symbols over a "
               "27-symbol alphabet, text and bytes), bigint and float digit generation (modelled by positional "
@@ -263,36 +257,6 @@ def _views_of(ws):
     n = int(ws[3])
     f = struct.unpack('>d', bytes.fromhex(ws[4]))[0]
     return U(n, f, unhex(ws[5]).decode(), unhex(ws[6]).decode(), unhex(ws[8])), unhex(ws[7]).decode()
-
-
-def _bytes_shapes(specs, data_for):
-    """(underflow, dot) : does some s/b/r/a specifier of a bytes template have width < data length /
-    a lone '.' with non-empty data"""
-    under = dot = False
-    for m in specs:
-        t = m.group('type')
-        if t not in b'sbra':
-            continue
-        data = data_for(t)
-        w, p = m.group('width'), m.group('prec')
-        lone = m.group('dot') and p is None
-        if p and p != b'*':
-            data = data[:int(p)]
-        if lone and data:
-            dot = True
-        if w and w != b'*' and int(w) < len(data):
-            under = True
-    return under, dot
-
-
-def _drop_lone_dots(b, specs):
-    out, last = [], 0
-    for m in specs:
-        if m.group('type') in b'sbra' and m.group('dot') and m.group('prec') is None:
-            out.append(b[last:m.start('dot')])
-            last = m.end('dot')
-    out.append(b[last:])
-    return b''.join(out)
 
 
 def _float_prec_big(specs):
@@ -485,16 +449,7 @@ def classify(req, impl_out, model_out, failure):
         if impl_out == 'panic':
             if _float_prec_big(specs):
                 return 'float-precision-over-65535-panics'
-            if mode == 'b':
-                under, _ = _bytes_shapes(specs, lambda t: u.y if t in b'sb' else asc.encode())
-                # Rust does not truncate on a lone '.', so its own length decides
-                if under:
-                    return 'bytes-width-less-than-len-panics'
             return None
-        if mode == 'b' and impl_out.startswith('ok '):
-            _, dot = _bytes_shapes(specs, lambda t: u.y if t in b'sb' else asc.encode())
-            if dot and _judge_render('b', _drop_lone_dots(lat, specs), u, impl_out) is None:
-                return 'bytes-dot-precision-ignored'
         return None
     if op == 'cfmt':
         spec = unhex(ws[1]).decode()
@@ -505,17 +460,7 @@ def classify(req, impl_out, model_out, failure):
         if impl_out == 'panic':
             if ws[2] == 'f' and _float_prec_big(specs):
                 return 'float-precision-over-65535-panics'
-            if ws[2] == 'y':
-                data = unhex(ws[3])
-                under, _ = _bytes_shapes(specs, lambda t: data)
-                if under:
-                    return 'bytes-width-less-than-len-panics'
             return None
-        if ws[2] == 'y' and impl_out.startswith('ok '):
-            data = unhex(ws[3])
-            _, dot = _bytes_shapes(specs, lambda t: data)
-            if dot and _judge_cfmt(_drop_lone_dots(lat, specs).decode('latin-1'), 'y', ws[3], impl_out) is None:
-                return 'bytes-dot-precision-ignored'
     return None
 
 
@@ -594,13 +539,6 @@ def _rand_float(rng):
     return rng.choice([1, -1]) * rng.random() * 10 ** rng.randrange(-8, 20)
 
 
-def _in_bytes_domain(spec, data):
-    """keep the two format_bytes findings out of random streams"""
-    m = find_specs(spec.encode('latin-1'))
-    under, dot = _bytes_shapes(m, lambda t: data)
-    return not under and not dot
-
-
 def _fmt_requests(rng, n, op='cfmt'):
     reqs = []
     for _ in range(n):
@@ -621,8 +559,6 @@ def _fmt_requests(rng, n, op='cfmt'):
         else:
             sp = _rand_spec(rng, 'sb')
             v = rng.choice(BYTESV)
-            if not _in_bytes_domain(sp, v):
-                continue
             reqs.append(f"{op} {hexs(sp)} y {hexs(v)}")
     return reqs
 
@@ -656,11 +592,6 @@ def _ok_for_random(mode, tmpl, u):
     specs = find_specs(lat)
     if _float_prec_big(specs):
         return False
-    if mode == 'b':
-        asc = ascii(u).encode()
-        under, dot = _bytes_shapes(specs, lambda t: u.y if t in b'sb' else asc)
-        if under or dot:
-            return False
     return True
 
 
@@ -697,6 +628,10 @@ def _corpus(ctx):
                 for u in VALUES[:6]:
                     if _ok_for_random(mode, tt, u):
                         reqs.append(_render_req(mode, tt, u))
+    # repaired by /repo 86620af (formerly known findings): width below the data length, lone '.' precision
+    reqs += [f"cfmt {hexs('%5s')} y {hexs(b'abcdefgh')}", _render_req('b', b"%5s", VALUES[3]),
+             f"cfmt {hexs('%-3.6b')} y {hexs(b'abcdefgh')}", f"cfmt {hexs('%.s')} y {hexs(b'ab')}",
+             _render_req('b', b"%5.s", VALUES[1]), f"cfmt {hexs('%1.s')} y {hexs(b'ab')}"]
     for sp in ["d", "%d", "", "x%d", "%dtail", "%5.3ftail", "%(k)s", "%(k", "%é", "%5", "%*d", "%.*f", "%b"]:
         reqs.append(f"cspec {hexs(sp)}")
     return reqs
@@ -706,10 +641,6 @@ def _known_probes():
     """one deterministic request per listed finding (KNOWN-FINDING lines on every run)"""
     u = VALUES[3]
     return [
-        f"cfmt {hexs('%5s')} y {hexs(b'abcdefgh')}",                 # bytes-width-less-than-len-panics
-        _render_req('b', b"%5s", u),
-        f"cfmt {hexs('%.s')} y {hexs(b'ab')}",                       # bytes-dot-precision-ignored
-        _render_req('b', b"%5.s", VALUES[1]),
         _split_req('t', "%b"),                                       # text-percent-b-accepted
         _split_req('t', "%b%"),
         _render_req('t', "%5b", u),
@@ -814,7 +745,7 @@ def _request_sets(ctx, py=False):
                         reqs.append(f"{fm} {hexs('%' + fl + w + p + t)} i {v}")
     sets.append(("int-layout-grid", "exhaustive", True,
                  "flags x width x precision x type x integers: sign/prefix/zero-padding/left-adjust interactions", reqs))
-    # strings / chars / bytes grid (bytes inside the domain)
+    # strings / chars / bytes grid
     reqs = []
     for fl in ['', '-', '0', '+', ' ', '#', '-0']:
         for w in ['', '0', '1', '2', '5', '9']:
@@ -826,9 +757,7 @@ def _request_sets(ctx, py=False):
                     reqs.append(f"{fm} {hexs('%' + fl + w + p + 'c')} c {c}")
                 for b in BYTESV:
                     for t in 'sb':
-                        spec = '%' + fl + w + p + t
-                        if _in_bytes_domain(spec, b):
-                            reqs.append(f"{fm} {hexs(spec)} y {hexs(b)}")
+                        reqs.append(f"{fm} {hexs('%' + fl + w + p + t)} y {hexs(b)}")
     sets.append(("string-char-bytes-grid", "exhaustive", True,
                  "width/precision relative to the data length (shorter, equal, longer), multi-byte text", reqs))
     # random longer templates
@@ -934,7 +863,7 @@ def search(ctx, disagreements, bins):
             for s in TEXTS:
                 reqs.append(f"cfmt {ws[1]} s {hexs(s)}")
             for b in BYTESV:
-                if _in_bytes_domain(spec, b) if spec.isascii() else False:
+                if spec.isascii():
                     reqs.append(f"cfmt {ws[1]} y {hexs(b)}")
             reqs.append(f"cfmt {ws[1]} c 233")
             for mode in 'tb':
